@@ -279,6 +279,27 @@ pub fn remove<ID: Eq + Hash, C: Conditions>(
     Ok(state)
 }
 
+/// Ensure that the given actor is an active member of the group with `Manage` access.
+///
+/// These are the same actor checks `modify()` performs; `promote()` and `demote()` use them when
+/// no modification is required, so that an actor without authority is rejected in that case, too.
+fn check_manager<ID: Eq + Hash, C: Conditions>(
+    state: &GroupMembersState<ID, C>,
+    actor: ID,
+) -> Result<(), GroupMembershipError<ID>> {
+    let Some(actor_state) = state.members.get(&actor) else {
+        return Err(GroupMembershipError::UnrecognisedActor(actor));
+    };
+
+    if !actor_state.is_member() {
+        return Err(GroupMembershipError::InactiveActor(actor));
+    } else if !actor_state.is_manager() {
+        return Err(GroupMembershipError::InsufficientAccess(actor));
+    }
+
+    Ok(())
+}
+
 /// Modify the access level of a group member.
 ///
 /// Both the `modifier` and `modified` identity must be active group members; failure to meet these
@@ -342,6 +363,7 @@ pub fn promote<ID: Eq + Hash, C: Conditions>(
     if let Some(member) = state.members.get(&promoted) {
         // No action is required if the member is already set to the highest access level.
         let new_state = if member.is_manager() {
+            check_manager(&state, promoter)?;
             state
         } else {
             modify(state, promoter, promoted, access)?
@@ -370,6 +392,7 @@ pub fn demote<ID: Eq + Hash, C: Conditions>(
     if let Some(member) = state.members.get(&demoted) {
         // No action is required if the member is already set to the lowest access level.
         let new_state = if member.is_puller() {
+            check_manager(&state, demoter)?;
             state
         } else {
             modify(state, demoter, demoted, access)?
